@@ -692,6 +692,23 @@ fn mkdir_all_body(scen: u64) {
     mkdir_all_body_p(scen, [P_ANY; 8], 0)
 }
 
+fn pad(b: &[u8]) -> [u8; PATH_L] {
+    let mut out = [0u8; PATH_L];
+    let mut i = 0;
+    while i < PATH_L {
+        if i < b.len() {
+            out[i] = b[i];
+        }
+        i += 1;
+    }
+    out
+}
+
+fn mkdir_all_shape(shape: u64, plan: [u8; 8], fixed_errno: i32) {
+    crate::verif_kani::kernel::scratch_set(0, shape, 0, 0);
+    mkdir_all_body_p(1, plan, fixed_errno)
+}
+
 /// plan: fault plan for [0] reopen, then (mkdirat, openat) per component
 fn mkdir_all_body_p(scen: u64, plan: [u8; 8], fixed_errno: i32) {
     let (rootfd, root) = setup();
@@ -704,8 +721,16 @@ fn mkdir_all_body_p(scen: u64, plan: [u8; 8], fixed_errno: i32) {
         }
         k.fixed_errno = fixed_errno;
     }
-    let tail = SymPath::any();
-    crate::verif_kani::kernel::scratch_set(scen, 0, 0, 0);
+    // tail: every byte string <= L (shape 0) or one of the enumerated concrete shapes
+    let shape = crate::verif_kani::kernel::scratch_get().1;
+    let tail = match shape {
+        1 => SymPath { buf: pad(b"a/b"), len: 3 },
+        2 => SymPath { buf: pad(b"a/.."), len: 4 },
+        3 => SymPath { buf: pad(b"./a/"), len: 4 },
+        4 => SymPath { buf: pad(b"a//b"), len: 4 },
+        _ => SymPath::any(),
+    };
+    crate::verif_kani::kernel::scratch_set(scen, shape, 0, 0);
     crate::verif_kani::kernel::tail_set(&tail.buf, tail.len);
     let mode: u32 = kani::any();
     kani::assume(mode & !0o1777 == 0); // invalid modes: root_mkdir_all_bad_mode
@@ -830,6 +855,29 @@ mk_p!(root_mkdir_all_tail_eexist, [P_OK, P_FAIL, P_OK, P_OK, P_OK, P_OK, P_OK, P
 mk_p!(root_mkdir_all_tail_mkdir_fails, [P_OK, P_FAIL, P_OK, P_OK, P_OK, P_OK, P_OK, P_OK], libc::EACCES);
 // the open of the freshly created first component fails (swapped for a non-directory): abort
 mk_p!(root_mkdir_all_tail_open_fails, [P_OK, P_OK, P_FAIL, P_OK, P_OK, P_OK, P_OK, P_OK], libc::ENOTDIR);
+macro_rules! mk_s {
+    ($name:ident, $shape:expr, $plan:expr, $errno:expr) => {
+        #[kani::proof]
+        #[kani::unwind(10)]
+        #[kani::stub(crate::resolvers::Resolver::resolve_partial, k_resolve_partial)]
+        #[kani::stub(crate::handle::Handle::reopen, crate::handle::Handle::k_handle_reopen)]
+        #[kani::stub(<std::os::unix::io::BorrowedFd<'static> as crate::utils::FdExt>::as_unsafe_path_unchecked, k_unsafe_path_unchecked)]
+        #[kani::stub(crate::syscalls::mkdirat, k_mkdirat)]
+        #[kani::stub(crate::syscalls::openat_follow, k_openat_follow)]
+        #[kani::stub(mc::memchr::memchr, k_memchr)]
+        #[kani::stub(mc::memchr::memrchr, k_memrchr)]
+        #[kani::stub(alloc::fmt::format, k_format)]
+        fn $name() {
+            mkdir_all_shape($shape, $plan, $errno);
+        }
+    };
+}
+// enumerated concrete tails (PATH_L >= 4 required), every valid mode, kernel per plan
+mk_s!(root_mkdir_all_shape_a_b, 1, [P_OK; 8], 0);
+mk_s!(root_mkdir_all_shape_a_dotdot, 2, [P_OK; 8], 0);
+mk_s!(root_mkdir_all_shape_dot_a_slash, 3, [P_OK; 8], 0);
+mk_s!(root_mkdir_all_shape_a_b_open_fails, 1, [P_OK, P_OK, P_FAIL, P_OK, P_OK, P_OK, P_OK, P_OK], libc::ENOTDIR);
+mk_s!(root_mkdir_all_shape_a_b_eexist, 1, [P_OK, P_FAIL, P_OK, P_FAIL, P_OK, P_OK, P_OK, P_OK], libc::EEXIST);
 mk_h!(root_mkdir_all_complete, 0);
 mk_h!(root_mkdir_all_tail, 1);
 mk_h!(root_mkdir_all_partial_other_error, 2);
